@@ -378,19 +378,31 @@ def run(ctx):
            and isinstance(c.ast.ops[0], (ast.Gt, ast.GtE)) and vcfg.true_of(c) is not None and vcfg.inevitably_raises(vcfg.true_of(c).id)]
     accepts = [n for c in q.calls(val) if isinstance(c.func, ast.Attribute) and c.func.attr == "append" and c.args and isinstance(c.args[0], ast.Name) and c.args[0].id.startswith("result") and not c.args[0].id.endswith("s")
                for n in vcfg.nodes_of(c)]
-    if not amb:
+    # the test may sit in a private helper of the validator that raises for an ambiguous value
+    amb_calls = []
+    vcls = val.cls
+    for c in q.calls(val):
+        if isinstance(c.func, ast.Attribute) and isinstance(c.func.value, ast.Name) and c.func.value.id == "self" and vcls is not None and c.func.attr in vcls.methods:
+            h = vcls.methods[c.func.attr]
+            hc = ctx.cfg(h)
+            if any(isinstance(k.ast, ast.Compare) and isinstance(k.ast.left, ast.Call) and isinstance(k.ast.left.func, ast.Name) and k.ast.left.func.id == "len" and isinstance(k.ast.ops[0], (ast.Gt, ast.GtE))
+                   and hc.true_of(k) is not None and hc.inevitably_raises(hc.true_of(k).id) for k in hc.conds()):
+                amb_calls += vcfg.nodes_of(c)
+    if not amb and not amb_calls:
         r.fail(val, val.node, "no ambiguity test", "the validator never rejects an ambiguous value")
     elif not accepts:
         r.note("acceptance site not recognised")
         r.vacuous_ok = True
     else:
-        x = amb[0].ast.left.args[0]
-        starts = [n for n in vcfg.nodes if n.kind == "stmt" and isinstance(n.ast, ast.Assign) and isinstance(x, ast.Name) and any(isinstance(t, ast.Name) and t.id == x.id for t in n.ast.targets)]
-        amb_ids = {c.id for c in amb}
+        amb_ids = {c.id for c in amb} | {n.id for n in amb_calls}
+        loops_ = [a for a in _anc(accepts[0].ast) if isinstance(a, ast.For)]
+        heads_ = [n for n in vcfg.nodes if n.kind == "for" and loops_ and n.ast is loops_[0]]
+        starts = [vcfg.nodes[x] for h_ in heads_ for x in vcfg.succs(h_.id) if vcfg.nodes[x].kind == "loop_body"] or [vcfg.entry]
+        what = norm(amb[0].ast) if amb else norm(amb_calls[0].ast)[:40]
         if starts and all(vcfg.all_paths_hit(s_.id, amb_ids, [a.id for a in accepts]) for s_ in starts):
-            r.ok("%s: `%s` is tested on every path to the acceptance" % (val.short, norm(amb[0].ast)))
+            r.ok("%s: `%s` is tested on every path to the acceptance" % (val.short, what))
         else:
-            r.fail(val, amb[0].ast, "ambiguity test `%s` not on every path" % norm(amb[0].ast), "%s reaches the acceptance of a value on a path that skips the ambiguity test (it only runs when the look-up failed, "
+            r.fail(val, amb[0].ast if amb else amb_calls[0].ast, "ambiguity test `%s` not on every path" % what, "%s reaches the acceptance of a value on a path that skips the ambiguity test (it only runs when the look-up failed, "
                    "which never happens for a value that is present twice): a duplicated choice is accepted silently - no error, no attempt consumed" % val.short)
 
     # ---------------------------------------------------------------- R11
